@@ -512,6 +512,14 @@ func c20SchemesKind() c20kind {
 		esig, _ := e.Sign(msg)
 		acts = append(acts, c20action{"eddsa.Verify(shared key)", func() string { return fpe(eddsa.Verify(e.Public, msg, esig)) }})
 		acts = append(acts, c20action{"eddsa.Sign(shared signer)", func() string { s, err := e.Sign(msg); return fp(s, err) }})
+		// signer objects that have never signed before the concurrent phase (fresh, and loaded through UnmarshalBinary)
+		e2 := eddsa.NewEdDSA(rng.Stream())
+		acts = append(acts, c20action{"eddsa.Sign(shared signer, first signatures)", func() string { s, err := e2.Sign(msg); return fp(s, err) }})
+		e3 := &eddsa.EdDSA{}
+		if eb, err := e.MarshalBinary(); err == nil && e3.UnmarshalBinary(eb) == nil {
+			acts = append(acts, c20action{"eddsa.Sign(shared signer loaded by UnmarshalBinary, first signatures)", func() string { s, err := e3.Sign(msg); return fp(s, err) }})
+			acts = append(acts, c20action{"eddsa.MarshalBinary(shared signer)", func() string { return fp(e3.MarshalBinary()) }})
+		}
 		// anon ring with shared set
 		x := ed.Scalar().Pick(rng.Stream())
 		set := anon.Set{ed.Point().Mul(x, nil), ed.Point().Pick(rng.Stream()), ed.Point().Pick(rng.Stream())}
